@@ -16,7 +16,7 @@ META = {
     "bounds": {"quick": {"n": "0..3", "key range": "0..3 (lst -1..3)"}, "thorough": {"n": "0..4", "key range": "0..4"}},
     "outside": ["lists longer than the bound", "non-integer key values", "nan keys"],
 }
-REQUIRED_COVERS = {"any": ["task:reordered", "task:tie", "worker:reordered", "worker:mw-equal-not-identical", "facility:reordered", "workplace:reordered", "c11:strict-priority-pair"]}
+REQUIRED_COVERS = {"any": ["task:reordered", "task:tie", "worker:reordered", "worker:mw-equal-not-identical", "facility:reordered", "workplace:reordered", "c11:strict-priority-pair", "c11:resource-rule-accepted"]}
 
 TASK_MODES = list(range(9))
 
@@ -236,12 +236,28 @@ def sim(p, ctx):
     oracles.c11(M, ctx)
 
 
+def sim_rules(p, ctx):
+    """Every rule is accepted for every resource kind it is used with: simulate() must not raise because of the rule."""
+    from props.simcore import run_sim
+    from props import oracles
+
+    M = run_sim(p, ctx)
+    if M.exc is not None:
+        ctx.fail("C11:rule-not-accepted:%s" % ctx.aborted)
+    else:
+        ctx.cover("c11:resource-rule-accepted")
+        oracles.c11(M, ctx)
+
+
 def integration_obligations(tier):
     """Allocation under contention for every task priority rule (zsym engine)."""
     from props import profiles
 
     thorough = tier == "thorough"
     obs = []
+    for ob in profiles.p_resource_rules(thorough, timeout=900 if thorough else 150):
+        ob = dict(ob, harness="sim_rules", engine="zsym")
+        obs.append(ob)
     for rule in range(9):
         for shape, es in (("indep", []), ("fork", [(0, 1, 0), (0, 2, 0)]), ("join", [(0, 2, 0), (1, 2, 0)])):
             for nw in (1, 2):
